@@ -36,21 +36,39 @@ fn split_cells(line: &str) -> Option<Vec<String>> {
     Some(t[1..t.len() - 1].split('|').map(|c| c.trim().to_string()).collect())
 }
 
+/// Names of a list written in any of the usual ways: one per line, or separated by commas and / or
+/// blanks (identifiers of the formula language contain neither).
+fn split_names(text: &str) -> Vec<String> {
+    text.split(|c: char| c == ',' || c.is_whitespace()).filter(|s| !s.is_empty()).map(str::to_string).collect()
+}
+
+/// A separator line of a table: cells made of dashes (and alignment colons) only.
+fn is_rule_line(line: &str) -> bool {
+    match split_cells(line) {
+        Some(cells) => !cells.is_empty() && cells.iter().all(|c| !c.is_empty() && c.contains('-') && c.chars().all(|ch| ch == '-' || ch == ':' || ch == ' ')),
+        None => false,
+    }
+}
+
 /// Parse stdout. `expect_table` / `expect_vars` say which sections the options asked for.
+/// The reader goes by structure, not by layout: blank lines are skipped, table lines are the
+/// ones that start with `|`, cells are trimmed (left-aligned, centred ..), a rule line may have any
+/// dash / colon pattern or be absent, names of the `-r` section and of a `-v` line may be separated
+/// by line breaks, commas or blanks. What the sections SAY is judged by the oracles.
 pub fn parse_stdout(stdout: &str, expect_r: bool, expect_table: bool, expect_vars: bool) -> Result<Parsed, String> {
     let mut p = Parsed::default();
-    let lines: Vec<&str> = stdout.split('\n').collect();
+    let lines: Vec<&str> = stdout.split('\n').map(|l| l.trim_end_matches('\r')).filter(|l| !l.trim().is_empty()).collect();
+    let n = lines.len();
     let mut i = 0;
-    let n = if lines.last() == Some(&"") { lines.len() - 1 } else { lines.len() };
     if expect_r {
         // names come first; they end where the table starts (a line starting with '|'), where the
         // -v section starts (a line ending with ';') or at the end
         while i < n {
             let l = lines[i];
-            if (expect_table && l.starts_with('|')) || (expect_vars && !expect_table && l.ends_with(';')) {
+            if (expect_table && l.trim_start().starts_with('|')) || (expect_vars && !expect_table && l.trim_end().ends_with(';')) {
                 break;
             }
-            p.ordering.push(l.to_string());
+            p.ordering.extend(split_names(l));
             i += 1;
         }
     }
@@ -58,22 +76,19 @@ pub fn parse_stdout(stdout: &str, expect_r: bool, expect_table: bool, expect_var
         if i >= n {
             return Err("no table header".into());
         }
-        let mut h = split_cells(lines[i]).ok_or_else(|| format!("bad header line {:?}", lines[i]))?;
+        let mut h = split_cells(lines[i].trim_start()).ok_or_else(|| format!("bad header line {:?}", lines[i]))?;
         if h.last().map(String::as_str) != Some("*") {
             return Err(format!("header does not end with *: {:?}", lines[i]));
         }
         h.pop();
         i += 1;
-        if i >= n || !lines[i].starts_with("|-") {
-            return Err("missing dashes line".into());
-        }
-        let dashes = split_cells(lines[i]).ok_or("bad dashes line")?;
-        if dashes.len() != h.len() + 1 || !dashes.iter().all(|d| d.chars().all(|c| c == '-') && !d.is_empty()) {
-            return Err(format!("bad dashes line {:?}", lines[i]));
-        }
-        i += 1;
-        while i < n && lines[i].starts_with('|') {
-            let cells = split_cells(lines[i]).ok_or_else(|| format!("bad row {:?}", lines[i]))?;
+        while i < n && lines[i].trim_start().starts_with('|') {
+            let line = lines[i].trim_start();
+            if is_rule_line(line) {
+                i += 1;
+                continue;
+            }
+            let cells = split_cells(line).ok_or_else(|| format!("bad row {:?}", lines[i]))?;
             if cells.len() != h.len() + 1 {
                 return Err(format!("row with {} cells under a header with {} columns: {:?}", cells.len(), h.len() + 1, lines[i]));
             }
@@ -98,15 +113,13 @@ pub fn parse_stdout(stdout: &str, expect_r: bool, expect_table: bool, expect_var
     }
     if expect_vars {
         while i < n {
-            let l = lines[i];
+            let l = lines[i].trim();
             let body = l.strip_suffix(';').ok_or_else(|| format!("-v line without ';': {l:?}"))?;
             let mut items = Vec::new();
-            if !body.is_empty() {
-                for it in body.split(", ") {
-                    match it.strip_suffix('*') {
-                        Some(nm) => items.push((nm.to_string(), true)),
-                        None => items.push((it.to_string(), false)),
-                    }
+            for it in split_names(body) {
+                match it.strip_suffix('*') {
+                    Some(nm) => items.push((nm.to_string(), true)),
+                    None => items.push((it, false)),
                 }
             }
             p.var_lines.push(items);
